@@ -2,7 +2,11 @@
 
 package dnsserver
 
-import "github.com/facebookincubator/dns/dnsrocks/db"
+import (
+	"time"
+
+	"github.com/facebookincubator/dns/dnsrocks/db"
+)
 
 // Hooks for the verification harness (build tag "verif"); never compiled into
 // production binaries.
@@ -22,4 +26,13 @@ func verifYield(point string) {
 // backend) as the served database, like Load does.
 func (h *FBDNSDB) VerifSetDB(d *db.DB) {
 	h.dnsdb = d
+}
+
+// VerifSetReloadTimeout changes the reload timeout of the handler (a start-up
+// constant otherwise), so that one history can contain reloads that are certain
+// to time out and reloads that are certain not to.
+func (h *FBDNSDB) VerifSetReloadTimeout(d time.Duration) {
+	h.reloadMu.Lock()
+	h.dbConfig.ReloadTimeout = d
+	h.reloadMu.Unlock()
 }
